@@ -492,6 +492,13 @@ def run_C06(run):
 
 def run_C12(run):
     q = run.tier == "quick"
+    # the abstract API machine itself (MC_Api.tla): protocol properties of the SPECIFICATION for all interleavings of two
+    # iterators, and the session validator accepts every behaviour the abstract machine can show
+    combos = [("seq", 1, 1), ("once", 3, 2), ("set", 4, 7)] if q else [(m, e, d) for m in ("seq", "once", "set") for e in (1, 2, 3, 4) for d in (1, 7)]
+    for mode, ex, doc in combos:
+        run.tlc("MC_Api", {"MaxIters": 2, "MaxCalls": 7 if q else 8, "Mode": mode, "DocId": doc, "ExprId": ex},
+                invariants=("GivenInTarget", "OnceNoDup", "CompleteAtFalse", "SeqOrder", "Purity", "ValidatorAcceptsSpec"),
+                properties=("StickyFalse",), name="api-machine-%s-e%d-d%d" % (mode, ex, doc), out=False)
     # flat paths: exact document order; every node-set expression: protocol
     run.hist("C12" if q else "C12big", 3 if q else 4, nslots=1, maxiters=2, docs_per=2 if q else 4, stage="hist-flat")
     run.hist("C04", 4 if q else 5, nslots=1, maxiters=2, docs_per=1, stage="hist-nonflat")
